@@ -58,6 +58,22 @@ def build_host(desc):
     return atoms, info
 
 
+# side-chain states an input residue name may end in when no pKa-driven
+# titration is requested (HIS: whichever tautomer the optimiser picks)
+ALLOWED_STATES = {
+    "HIS": {"HID", "HIE"}, "HID": {"HID"}, "HSD": {"HID"}, "HIE": {"HIE"},
+    "HSE": {"HIE"}, "HIP": {"HIP"}, "HSP": {"HIP"},
+    # bridging is decided by geometry (C13), not by the residue name
+    "CYS": {"CYS", "CYX"}, "CYX": {"CYS", "CYX"},
+}
+
+
+def allowed_states(input_name):
+    return ALLOWED_STATES.get(
+        input_name, {T.base_of(input_name) if input_name in T.AMINO
+                     else input_name})
+
+
 def state_ref(input_name, position, atom_names, *, neutraln=False,
               neutralc=False):
     """Canonical state-qualified name of an amino-acid residue, inferred from
